@@ -230,3 +230,25 @@ Proof.
   - destruct (Z.ltb_spec n 0); [lia|]. destruct (Z.leb_spec 0 n); [|lia]. cbn [orb andb].
     destruct (Z.ltb_spec len (pos + n)); destruct (Z.leb_spec (pos + n) len); try reflexivity; lia.
 Qed.
+
+(** * a seek to the current position never restarts a stream coder (tests regenerated from the three seek routines) *)
+Lemma seek_restart_lemma : forall offset cur,
+  (rle_seek_restarts offset cur <> 0 <-> offset < cur) /\
+  (skp_seek_restarts offset cur <> 0 <-> offset < cur) /\
+  (deflate_seek_restarts offset cur <> 0 <-> offset < cur).
+Proof.
+  intros offset cur. unfold rle_seek_restarts, skp_seek_restarts, deflate_seek_restarts.
+  destruct (Z.ltb_spec offset cur); repeat split; intros; try lia; try discriminate.
+Qed.
+
+(** * Hbitwrite: the two copies of the buffer-full code are the same statements, and in them the block offset is
+    advanced before the next block is pre-read and the file position is put back to it *)
+Definition hbitwrite_block_ok (b : list string) : bool :=
+  String.eqb (nth 4 b EmptyString) "bitfile_rec->block_offset += write_size" &&
+  String.eqb (nth 5 b EmptyString) "if (bitfile_rec->max_offset > bitfile_rec->byte_offset)" &&
+  String.eqb (nth 11 b EmptyString)
+    "if (Hseek(bitfile_rec->acc_id, bitfile_rec->block_offset, DF_START) == FAIL) HRETURN_ERROR(DFE_SEEKERROR, FAIL)" &&
+  (List.length b =? 12)%nat.
+Lemma hbitwrite_full_blocks_lemma :
+  hbitwrite_full_block_1 = hbitwrite_full_block_2 /\ hbitwrite_block_ok hbitwrite_full_block_1 = true.
+Proof. split; vm_compute; reflexivity. Qed.
